@@ -23,6 +23,13 @@ pub struct MultiCase {
     pub picks: Vec<u16>,
 }
 
+/// A small framework with a list, or a list over a composite framework of 20-200 arguments.
+#[derive(Clone, Debug, Serialize, Deserialize)]
+pub enum MultiAny {
+    Small(MultiCase),
+    Composite(crate::checks::composite::CompositeCase),
+}
+
 pub struct Multi;
 
 pub fn resolve_picks(g: &G, att: &[(u8, u8)], mode: u8, picks: &[u16]) -> Vec<usize> {
@@ -161,17 +168,37 @@ impl Multi {
 }
 
 impl Prop for Multi {
-    type Case = MultiCase;
+    type Case = MultiAny;
     fn id(&self) -> &'static str {
         "C07"
     }
     fn rule(&self) -> String {
-        "Frameworks of <=9 (quick) / <=12 (thorough) arguments biased to 1-4 components, with a list of 1-3 arguments (repetitions allowed) chosen freely, as the endpoints of an attack, or one per component; every static solver type implementing an acceptance trait x every selectable encoder x credulous/skeptical, with and without certificate, each on a fresh solver object; status must equal the disjunctive reference answer and the certificate must contain at least one / no listed member. Non-trivial: the list has >=2 distinct arguments and either spans >=2 components or its disjunctive answer differs from a member's single answer; distinct = (graph, presentation kind, problem, encoder, list).".into()
+        "Frameworks of <=9 (quick) / <=12 (thorough) arguments biased to 1-4 components, with a list of 1-3 arguments (repetitions allowed) chosen freely, as the endpoints of an attack, or one per component; every static solver type implementing an acceptance trait x every selectable encoder x credulous/skeptical, with and without certificate, each on a fresh solver object; status must equal the disjunctive reference answer and the certificate must contain at least one / no listed member. One case in 150 is a union of 3-30 small components (20-200 arguments) with a list of up to three of its arguments: the disjunctive answer is exact by composition. Non-trivial: the list has >=2 distinct arguments and either spans >=2 components or its disjunctive answer differs from a member's single answer; distinct = (graph, presentation kind, problem, encoder, list).".into()
     }
     fn assumptions(&self) -> Vec<String> {
         vec!["oracle.rs reference semantics".into(), "lists of 1-3 arguments as the property states".into()]
     }
-    fn strategy(&self, tier: Tier) -> BoxedStrategy<MultiCase> {
+    fn strategy(&self, tier: Tier) -> BoxedStrategy<MultiAny> {
+        let composite = crate::checks::statics::composite_strategy(tier).prop_map(MultiAny::Composite);
+        prop_oneof![150 => self.small_strategy(tier).prop_map(MultiAny::Small), 1 => composite].boxed()
+    }
+    fn n_cases(&self, tier: Tier) -> u32 {
+        tier.pick(60_000, 1_500_000)
+    }
+    fn run(&self, any: &MultiAny, rec: &mut Rec) -> CheckResult {
+        match any {
+            MultiAny::Small(c) => self.run_small(c, rec),
+            MultiAny::Composite(c) => crate::checks::composite::run_lists(c, rec),
+        }
+    }
+    fn enumerated(&self, tier: Tier) -> (Vec<MultiAny>, String) {
+        let (v, d) = self.enumerated_small(tier);
+        (v.into_iter().map(MultiAny::Small).collect(), d)
+    }
+}
+
+impl Multi {
+    fn small_strategy(&self, tier: Tier) -> BoxedStrategy<MultiCase> {
         let nmax = tier.pick(9, 12);
         (
             prop_oneof![3 => gen::graph_multi(nmax), 2 => gen::graph(nmax)],
@@ -183,10 +210,7 @@ impl Prop for Multi {
             .prop_map(|(g, pres, mode, picks)| MultiCase { gc: GraphCase { g, pres }, mode, picks })
             .boxed()
     }
-    fn n_cases(&self, tier: Tier) -> u32 {
-        tier.pick(60_000, 1_500_000)
-    }
-    fn enumerated(&self, tier: Tier) -> (Vec<MultiCase>, String) {
+    fn enumerated_small(&self, tier: Tier) -> (Vec<MultiCase>, String) {
         // all graphs on <=3 arguments x all non-empty lists of <=2 (quick) / <=3 (thorough) distinct positions
         let mut v = vec![];
         let maxlen = tier.pick(2, 3);
@@ -216,7 +240,7 @@ impl Prop for Multi {
         }
         (v, format!("all digraphs on 1..=3 arguments x all lists of length <={}", maxlen))
     }
-    fn run(&self, case: &MultiCase, rec: &mut Rec) -> CheckResult {
+    fn run_small(&self, case: &MultiCase, rec: &mut Rec) -> CheckResult {
         if case.gc.g.n == 0 || case.picks.is_empty() {
             return Ok(());
         }
